@@ -21,7 +21,7 @@ from .. import algs, fpx
 from ..runner import Infra
 from ..translate import ir
 
-THEOREMS = ["generated_wf", "generated_shape", "square_evalQ", "square_accuracy", "absolute_constants", "sqrt2_bounds", "ties_absolute", "absolute_accuracy", "absolute_kinds", "absolute_bit_level_c64", "absolute_bit_level_c128", "Lmax_ge4", "absolute_total_c64", "absolute_total_c128", "square_overflow_checks", "square_kinds", "square_total_c64", "square_total_c128", "square_bits_accuracy_c64", "square_bits_accuracy_c128", "absolute_c64_at_x_pinf", "absolute_c64_at_x_ninf", "absolute_c64_at_pinf_x", "absolute_c64_at_ninf_x", "absolute_c128_at_x_pinf", "absolute_c128_at_x_ninf", "absolute_c128_at_pinf_x", "absolute_c128_at_ninf_x"]
+THEOREMS = ["generated_wf", "generated_shape", "square_evalQ", "square_accuracy", "absolute_constants", "sqrt2_bounds", "ties_absolute", "absolute_accuracy", "absolute_kinds", "absolute_bit_level_c64", "absolute_bit_level_c128", "Lmax_ge4", "absolute_total_c64", "absolute_total_c128", "square_overflow_checks", "square_kinds", "square_total_c64", "square_total_c128", "square_bits_accuracy_c64", "square_bits_accuracy_c128", "absolute_c64_at_x_pinf", "absolute_c64_at_x_ninf", "absolute_c64_at_pinf_x", "absolute_c64_at_ninf_x", "absolute_c128_at_x_pinf", "absolute_c128_at_x_ninf", "absolute_c128_at_pinf_x", "absolute_c128_at_ninf_x", "absolute_c64_at_x_pzero_shape", "absolute_c64_at_x_pzero", "absolute_c64_at_x_nzero_shape", "absolute_c64_at_x_nzero", "absolute_c64_at_pzero_x_shape", "absolute_c64_at_pzero_x", "absolute_c64_at_nzero_x_shape", "absolute_c64_at_nzero_x", "absolute_c128_at_x_pzero_shape", "absolute_c128_at_x_pzero", "absolute_c128_at_x_nzero_shape", "absolute_c128_at_x_nzero", "absolute_c128_at_pzero_x_shape", "absolute_c128_at_pzero_x", "absolute_c128_at_nzero_x_shape", "absolute_c128_at_nzero_x"]
 SEARCHED = ["16-ULP bound for all non-NaN inputs", "no spurious NaN / infinity / wrong sign", "99.9 % within 3 ULP (4 for sqrt, log1p) on both log-uniform streams"]
 TRUSTED = [
     "Lean 4 kernel; axioms propext, Classical.choice, Quot.sound only",
@@ -332,7 +332,7 @@ def run(ctx):
     ctx.rule = ("per (function, dtype): log-uniform bit patterns, magnitudes 2^-12..2^12, +-4 ULP around every threshold constant of the regenerated program, "
                 "special lattice (zeros, subnormal, min normal, 1, max, inf); non-trivial = finite input with a determined mpmath reference; distinct by input bits")
     progs, errors = generate(ctx)
-    broken = ctx.lean_stage(["FAVerif.Props.C01", "FAVerif.Props.C01Abs", "FAVerif.Props.C01AbsBits", "FAVerif.Props.C01AbsTotal", "FAVerif.Props.C01SquareTotal", "FAVerif.Props.C01AbsLimits"], THEOREMS)
+    broken = ctx.lean_stage(["FAVerif.Props.C01", "FAVerif.Props.C01Abs", "FAVerif.Props.C01AbsBits", "FAVerif.Props.C01AbsTotal", "FAVerif.Props.C01SquareTotal", "FAVerif.Props.C01AbsLimits", "FAVerif.Props.C01AbsZero"], THEOREMS)
     for k, e in errors.items():
         broken.append(ctx.broken(f"translate:{k}", e))
     n = ctx.scale(700, 60000)
